@@ -367,7 +367,14 @@ func (cw *commandUnit) Cancel() error {
 	proc.Wait()
 	verifPoint("cancel.before_write", "")
 
-	cw.UpdateBasicStatus(WorkStateCanceled, "Canceled", -1)
+	cw.UpdateFullStatus(func(status *StatusFileData) {
+		if status.State == WorkStateSucceeded {
+			// The command completed before it could be interrupted: its recorded outcome stands
+			return
+		}
+		status.State = WorkStateCanceled
+		status.Detail = "Canceled"
+	})
 
 	return nil
 }
